@@ -26,13 +26,15 @@ def run(report: Report, tier, seed):
     report.assume("under contract (pyvc): _base64vlq_encode / _base64vlq_decode against the Revision-3 VLQ definition, unbounded integers, any number of values; "
                   "the round trip is the composition of the two contracts (encoder postcondition == decoder precondition)",
                   "Python semantics assumed by the VCs: x & 31 = x mod 32, x >> 5 = floor(x / 32), x << s = x * 2**s (s >= 0), a | b = a + b on disjoint bit ranges",
-                  "not under contract (bounded stand-ins only): R3SourceMap.to_json / from_json delta bookkeeping and ';' ',' joining, frame selection (CPython frame introspection), "
+                  "under contract (pyvc, region): the delta bookkeeping of R3SourceMap.to_json - every emitted segment, run through the specified Revision-3 decoder state machine, decodes to its entry's "
+                  "column / source index / line / column / name index",
+                  "not under contract (bounded stand-ins only): R3SourceMap.from_json, the ';' ',' joining and the sources / names lists of the JSON, frame selection (CPython frame introspection), "
                   "TealMapItem construction, annotated TEAL",
                   "attribution to (file, line) is checked on one generated user module with constants in statement, operand and nested positions")
     from vf.runner import run_contracts
     from vf.core import use_repo
     use_repo()
-    run_contracts(report, [("contracts.c15_vlq", "VlqEncode", "O15.4a"), ("contracts.c15_vlq", "VlqDecode", "O15.4b")])
+    run_contracts(report, [("contracts.c15_vlq", "VlqEncode", "O15.4a"), ("contracts.c15_vlq", "VlqDecode", "O15.4b"), ("contracts.c15_tojson", "ToJson", "O15.5")])
     from contracts.c15_vlq import alphabet_bijection
     nb, bad = alphabet_bijection()
     report.ob(Ob(id="O15.4c/alphabet-tables-inverse", function="pyteal.compiler.sourcemap._b64chars/_b64table", kind="E",
@@ -58,7 +60,11 @@ def run(report: Report, tier, seed):
     report.sample({"vlq": {"values": [0, -1, 16, 1024], "encoded": "AADgBggC"}})
     vlq_probs = [p for p in probs if p.startswith("VLQ")]
 
+    json_probs = [p for p in probs if "Revision-3" in p or "from_json" in p]
+
     def search(fn, obs):
+        if "to_json" in fn:
+            return {"input": json_probs[0], "what": json_probs[0]} if json_probs else None
         return {"input": vlq_probs[0], "what": vlq_probs[0]} if vlq_probs else None
     report.settle_undecided(search)
     report.settle_refuted(search)
